@@ -5,6 +5,7 @@
 From Coq Require Import ZifyBool Relations.
 From DoitV Require Import Base Status History StatusP HistoryP Commands.
 From DoitV Require Dispatch Runner DispatchP.
+From DoitV Require Parallel RunnerP ParallelP OutcomeSpec OutcomeParP.
 Open Scope Z_scope.
 
 (* ---------- the table ---------- *)
@@ -1425,4 +1426,177 @@ Lemma next_run_never_starts_ignored md5 v wake_rank calc_rank c fs d rt cont alw
 Proof.
   intros Hl Hi. unfold next_run. apply IgnRun.ignored_never_started.
   rewrite (run_table_dbignore md5 v c fs d rt T ct Hl). exact Hi.
+Qed.
+
+(* ---------- ignore wins over every option of the run, --always-execute included ----------
+   [ign_clo]: the tasks the mark reaches in a run-family task table: marked in the DB (t_dbignore), or
+   with a task_dep / calc_dep on such a task.  Runner.select_task looks at ignored_deps / the mark
+   BEFORE it looks at always_execute; in the outcome specification (Proofs/OutcomeSpec.v) that is rule
+   f_ignore, the only rule of [first] that applies to such a task, for either value of [always]. *)
+Module IgnWins.
+Import Dispatch Runner Parallel RunnerP ParallelP OutcomeSpec OutcomeParP.
+Open Scope N_scope.
+
+Section S.
+Variable tasks : name -> option task.
+Variable always : bool.
+
+Inductive ign_clo : name -> Prop :=
+| ic_db k : t_dbignore (get_task tasks k) = true -> ign_clo k
+| ic_dep k x : In x (deps12 tasks k) -> ign_clo x -> ign_clo k.
+
+Lemma deps12_vdep st k x : In x (deps12 tasks k) -> vdep tasks st k x.
+Proof.
+  unfold deps12. intros H. apply in_app_iff in H. destruct H as [H|H].
+  - apply vd_task. exact H.
+  - apply vd_calc. apply vc_static. exact H.
+Qed.
+
+(* the specification gives such a task the outcome `ignored`, and no other *)
+Lemma fin_ign_clo k : ign_clo k -> forall r, fin tasks always k r -> r = FIgnore.
+Proof.
+  induction 1 as [k Hk|k x Hx Hc IH]; intros r F.
+  - inversion F as [k0 a p r0 Hd Hf Hs|k0 a r0 Hd Hf Hse Hsec]; subst.
+    + inversion Hf; subst; simpl in Hs; try congruence.
+    + inversion Hf; subst; congruence.
+  - assert (G : forall a, (forall y, vdep tasks (sta a) k y -> fin tasks always y (a y)) -> sta a x = SIgnore).
+    { intros a Hd. unfold sta. rewrite (IH (a x) (Hd x (deps12_vdep _ k x Hx))). reflexivity. }
+    inversion F as [k0 a p r0 Hd Hf Hs|k0 a r0 Hd Hf Hse Hsec]; subst.
+    + pose proof (G a Hd) as E. pose proof (deps12_vdep (sta a) k x Hx) as V.
+      inversion Hf as [Hi|Hn Hb Hex|Hg Hb Hck|Hg Hb Hck Hal|Hg Hb Hck]; subst; simpl in Hs.
+      * congruence.
+      * exfalso. exact (Hn x V E).
+      * specialize (Hg x V). rewrite E in Hg. discriminate.
+      * specialize (Hg x V). rewrite E in Hg. discriminate.
+      * discriminate.
+    + pose proof (G a Hd) as E. pose proof (deps12_vdep (sta a) k x Hx) as V.
+      inversion Hf as [Hi|Hn Hb Hex|Hg Hb Hck|Hg Hb Hck Hal|Hg Hb Hck]; subst.
+      specialize (Hg x V). rewrite E in Hg. discriminate.
+Qed.
+
+(* every final report such a task gets, in ANY run -- serial or parallel, any selection, --continue
+   or not, any schedule / worker count / flavour -- is skip_ignore *)
+Lemma ign_clo_report c k e :
+  ign_clo k -> In e (run_events tasks always c) -> is_final_ev k e = true -> e = ESkipIgnore k.
+Proof.
+  intros Hk Hin Hf. destruct (run_outcome_sound tasks always c k e Hin Hf) as (r & A & ->).
+  rewrite (fin_ign_clo k Hk r A). reflexivity.
+Qed.
+
+Lemma deps12_static k x : In x (deps12 tasks k) -> In x (static_deps tasks k).
+Proof.
+  unfold deps12, static_deps. intros H. apply in_app_iff in H. destruct H as [H|H].
+  - apply in_or_app. left. exact H.
+  - apply in_or_app. right. apply in_or_app. left. exact H.
+Qed.
+
+Section Serial.
+Variable wake_rank : name -> name -> N.
+Variable calc_rank : name -> N.
+Variable continue_ : bool.
+Variable fuel : nat.
+Variable sel : list name.
+Let tr := fst (run_serial tasks wake_rank calc_rank continue_ always fuel sel).
+
+(* a task that effectively depends on one of them (setup-tasks and what calc_dep tasks return
+   included) is never executed *)
+Lemma serial_dep_on_ign_never_runs t x : eff_dep tasks t x -> ign_clo x -> ~ In (EExecute t) tr.
+Proof.
+  intros Hx Hc Hex. apply in_split in Hex. destruct Hex as (pre & post & E).
+  destruct (cordered_split tasks tr (serial_contained tasks wake_rank calc_rank continue_ always fuel sel) pre t post E x Hx)
+    as (e' & Hin' & Hf' & Hg').
+  assert (Hin2 : In e' tr) by (rewrite E; apply in_or_app; left; exact Hin').
+  pose proof (ign_clo_report (RunSerial wake_rank calc_rank continue_ fuel sel) x e' Hc Hin2 Hf') as ->.
+  discriminate.
+Qed.
+
+Lemma serial_ign_never_runs k : ign_clo k -> ~ In (EExecute k) tr.
+Proof.
+  intros Hk. destruct Hk as [k Hk|k x Hx Hc].
+  - apply IgnRun.ignored_never_started. exact Hk.
+  - apply (serial_dep_on_ign_never_runs k x); [apply ed_static, deps12_static; exact Hx|exact Hc].
+Qed.
+End Serial.
+
+Section Parallel.
+Variable wake_rank : name -> name -> N.
+Variable calc_rank : name -> N.
+Variable continue_ proc : bool.
+Variable fuel nprocs : nat.
+Variable sched : list nat.
+Variable sel : list name.
+Let log := fst (run_parallel tasks wake_rank calc_rank continue_ always proc fuel nprocs sched sel).
+
+Lemma parallel_dep_on_ign_never_runs t w x : eff_dep tasks t x -> ign_clo x -> ~ In (PStart t w) log.
+Proof.
+  intros Hx Hc Hst. apply in_split in Hst. destruct Hst as (pre & post & E).
+  destruct (pcordered_split tasks log (parallel_contained tasks wake_rank calc_rank continue_ always proc fuel nprocs sched sel)
+              pre t w post E x Hx) as (e' & Hin' & Hf' & Hg').
+  assert (Hin2 : In e' (proj log)) by (rewrite E, proj_app; apply in_or_app; left; exact Hin').
+  pose proof (ign_clo_report (RunParallel wake_rank calc_rank continue_ proc fuel nprocs sched sel) x e' Hc Hin2 Hf') as ->.
+  discriminate.
+Qed.
+End Parallel.
+
+End S.
+End IgnWins.
+
+(* the closure of Model/Commands.v is the one of the run-family table read from the DB *)
+Lemma run_table_deps md5 v c fs d rt k ct :
+  lookup rt k = Some ct ->
+  Dispatch.t_task_dep (Dispatch.get_task (run_table md5 v c fs d rt) k) = c_task_dep ct /\
+  Dispatch.t_calc_dep (Dispatch.get_task (run_table md5 v c fs d rt) k) = c_calc_dep ct /\
+  Dispatch.t_setup (Dispatch.get_task (run_table md5 v c fs d rt) k) = c_setup ct.
+Proof. intros H. unfold Dispatch.get_task, run_table. rewrite H. repeat split. Qed.
+
+Lemma ignored_by_clo md5 v c fs d rt k :
+  ignored_by d rt k -> IgnWins.ign_clo (run_table md5 v c fs d rt) k.
+Proof.
+  induction 1 as [k ct Hl Hi|k ct x Hl Hx _ IH].
+  - apply IgnWins.ic_db. rewrite (run_table_dbignore md5 v c fs d rt k ct Hl). exact Hi.
+  - apply (IgnWins.ic_dep _ k x); [|exact IH].
+    unfold RunnerP.deps12. destruct (run_table_deps md5 v c fs d rt k ct Hl) as (-> & -> & _). exact Hx.
+Qed.
+
+(* THE STATEMENT for the run on the DB a command left, serial runner: whatever the options of the run
+   (selection, --continue, --always-execute), the scheduling oracles and the fuel -- a task the mark
+   reaches is never executed and every report it gets is skip_ignore; a task that has one as a
+   setup-task is never executed either *)
+Lemma next_run_ignore_wins md5 v wake_rank calc_rank c fs d rt cont always fuel sel k :
+  ignored_by d rt k ->
+  let tr := fst (next_run md5 v wake_rank calc_rank c fs d rt cont always fuel sel) in
+  ~ In (Runner.EExecute k) tr /\
+  (forall e, In e tr -> RunnerP.is_final_ev k e = true -> e = Runner.ESkipIgnore k) /\
+  (forall t, setup_ignored_by d rt t -> ~ In (Runner.EExecute t) tr).
+Proof.
+  intros Hk. cbv zeta. unfold next_run. pose proof (ignored_by_clo md5 v c fs d rt k Hk) as Hc.
+  split; [|split].
+  - apply IgnWins.serial_ign_never_runs. exact Hc.
+  - intros e Hin Hf.
+    exact (IgnWins.ign_clo_report _ always (OutcomeParP.RunSerial wake_rank calc_rank cont fuel sel) k e Hc Hin Hf).
+  - intros t (ct & x & Hl & Hx & Hix).
+    apply (IgnWins.serial_dep_on_ign_never_runs _ always wake_rank calc_rank cont fuel sel t x).
+    + apply RunnerP.ed_static. unfold RunnerP.static_deps.
+      destruct (run_table_deps md5 v c fs d rt t ct Hl) as (_ & _ & ->).
+      apply in_or_app. right. apply in_or_app. right. exact Hx.
+    + exact (ignored_by_clo md5 v c fs d rt x Hix).
+Qed.
+
+(* ... and the parallel runners (threads or processes, any worker count, any schedule) over the same
+   table: the reports, and no start of a task that depends on (task_dep, calc_dep, setup) a task the
+   mark reaches *)
+Lemma next_run_parallel_ignore_wins md5 v wake_rank calc_rank c fs d rt cont always proc fuel nprocs sched sel k :
+  ignored_by d rt k ->
+  let log := fst (Parallel.run_parallel (run_table md5 v c fs d rt) wake_rank calc_rank cont always proc fuel nprocs sched sel) in
+  (forall e, In (Parallel.PE e) log -> RunnerP.is_final_ev k e = true -> e = Runner.ESkipIgnore k) /\
+  (forall t ct w, lookup rt t = Some ct -> In k (c_task_dep ct ++ c_calc_dep ct ++ c_setup ct) -> ~ In (Parallel.PStart t w) log).
+Proof.
+  intros Hk. cbv zeta. pose proof (ignored_by_clo md5 v c fs d rt k Hk) as Hc. split.
+  - intros e Hin Hf.
+    apply (IgnWins.ign_clo_report _ always (OutcomeParP.RunParallel wake_rank calc_rank cont proc fuel nprocs sched sel) k e Hc); [|exact Hf].
+    simpl. unfold ParallelP.proj. apply in_flat_map. exists (Parallel.PE e). split; [exact Hin|left; reflexivity].
+  - intros t ct w Hl Hx.
+    apply (IgnWins.parallel_dep_on_ign_never_runs _ always wake_rank calc_rank cont proc fuel nprocs sched sel t w k); [|exact Hc].
+    apply RunnerP.ed_static. unfold RunnerP.static_deps.
+    destruct (run_table_deps md5 v c fs d rt t ct Hl) as (-> & -> & ->). exact Hx.
 Qed.
